@@ -23,7 +23,7 @@ CHECKS = {
     "C02": {
         "test": "TestC02",
         "quick": {"shards": 8, "checks": 8000},
-        "thorough": {"shards": 16, "checks": 2500},
+        "thorough": {"shards": 16, "checks": 5000},
         "rule": "histories as in C01; after every block up to 3 prove requests (one / two / sibling pairs / all / random third / one per tree / one per row, "
                 "in ascending, descending or rapid-permuted order) sent to Pollard, a full MapPollard and a partial MapPollard (restricted to the leaves it "
                 "was asked to remember); each proof compared hash-for-hash with the model's canonical proof and fed to Verify, Pollard.Verify and every "
@@ -34,7 +34,7 @@ CHECKS = {
     "C16": {
         "test": "TestC16",
         "quick": {"shards": 8, "checks": 100000},
-        "thorough": {"shards": 16, "checks": 200000},
+        "thorough": {"shards": 16, "checks": 1000000},
         "rule": "two parts. Enumerated (complete, dealt over shards): heights 0..7 (thorough 0..9): every position x {DetectRow, Parent, Left/RightChild, "
                 "ParentMany/ChildMany for every rise/drop incl. out of range}; every leaf count x {TreeRows, RootPositions}; every node of every forest x "
                 "DetectOffset (validated by walking the returned bits from the geometric root); ProofPositions for every non-empty leaf subset of n<=16 "
@@ -81,7 +81,7 @@ NOT_APPLICABLE = [{"property_id": "C%02d" % i, "reason": _PENDING} for i in rang
 CHECKS["C04"] = {
     "test": "TestC04",
     "quick": {"shards": 8, "checks": 30000},
-    "thorough": {"shards": 16, "checks": 60000, "fuzz": {"target": "FuzzC04", "seconds": 240}},
+    "thorough": {"shards": 16, "checks": 200000, "fuzz": {"target": "FuzzC04", "seconds": 240}},
     "rule": "a small real forest (0..6 generated blocks) gives the state for Pollard.Verify, MapPollard.Verify and VerifyPartialProof (generated TotalRows, "
             "full/partial, remember on/off); Verify and Stump.Update get that stump, or the same forest embedded at the low end of a stump with up to 2^62+.. "
             "leaves (fresh roots for the high trees), or a synthetic stump (NumLeaves from boundary constants / random 64-bit values <= 2^63, roots from "
@@ -131,7 +131,7 @@ NOT_APPLICABLE[:] = [e for e in NOT_APPLICABLE if e["property_id"] not in CHECKS
 CHECKS["C05"] = {
     "test": "TestC05",
     "quick": {"shards": 8, "checks": 6000},
-    "thorough": {"shards": 16, "checks": 6000},
+    "thorough": {"shards": 16, "checks": 12000},
     "rule": "a generated history builds the state in Stump, Pollard, a full and a partial MapPollard (generated TotalRows) and a light client's cached proof; "
             "then one block deletes a generated live target set (shapes as in C02) whose proof is encoded as: canonical / targets+hashes permuted in parallel / "
             "1-3 junk hashes appended / assembled by AddProof from two (possibly overlapping) honest proofs / cut by GetProofSubset from a larger honest proof / "
@@ -194,7 +194,7 @@ MANIFEST_TEXT["C07"] = {
 CHECKS["C11"] = {
     "test": "TestC11",
     "quick": {"shards": 8, "checks": 12000},
-    "thorough": {"shards": 16, "checks": 6000},
+    "thorough": {"shards": 16, "checks": 12000},
     "rule": "block histories as in C07 through Stump.Update; after every successful update the returned UpdateData is compared field by field with values derived "
             "from the reference model only: PrevNumLeaves; ToDestroy (empty trees popped by the binary addition, post-block layout, destruction order); "
             "NewDelPos/NewDelHash (every pre-block node on a target->root path, ascending, with the compressed hash of what survives under it, zero if nothing); "
@@ -213,7 +213,7 @@ NOT_APPLICABLE[:] = [e for e in NOT_APPLICABLE if e["property_id"] not in CHECKS
 CHECKS["C08"] = {
     "test": "TestC08",
     "quick": {"shards": 8, "checks": 8000},
-    "thorough": {"shards": 16, "checks": 6000},
+    "thorough": {"shards": 16, "checks": 12000},
     "rule": "rapid-generated sequences of block (C07's remember classes) / undo (depth 1 or random depth, newest first) / redo steps; new blocks after an undo use "
             "different leaf hashes. The light client calls Proof.Update per block and Proof.Undo with (numAdds, leaf count after the block, the block's targets, "
             "deleted hashes, its own hashes, UpdateData.ToDestroy, the block proof). After every single undo, against the model of the pre-block state: no held "
@@ -234,7 +234,7 @@ NOT_APPLICABLE[:] = [e for e in NOT_APPLICABLE if e["property_id"] not in CHECKS
 CHECKS["C09"] = {
     "test": "TestC09",
     "quick": {"shards": 8, "checks": 6000},
-    "thorough": {"shards": 16, "checks": 5000},
+    "thorough": {"shards": 16, "checks": 10000},
     "rule": "rapid-generated interleavings, on a non-full MapPollard started fresh (TotalRows from {0,1,2,3,4,5,7,63}) or from bare roots of a generated state "
             "(NewMapPollardFromRoots), of: block (Verify(remember) of the deletions, Modify with generated Remember flags), Verify(remember) and Ingest of "
             "arbitrary live sets with honest proofs, Prune of subsets of the cache, Undo. The harness tracks the expected remembered set. After EVERY "
@@ -306,7 +306,7 @@ NOT_APPLICABLE[:] = [e for e in NOT_APPLICABLE if e["property_id"] not in CHECKS
 CHECKS["C14"] = {
     "test": "TestC14",
     "quick": {"shards": 8, "checks": 20000},
-    "thorough": {"shards": 16, "checks": 12000},
+    "thorough": {"shards": 16, "checks": 40000},
     "rule": "a rapid-generated step sequence (block / Verify(remember) / Prune / Undo) brings the reference model and a partial MapPollard (generated TotalRows) to a "
             "state; target set A is drawn as in C02 and B with a forced relation to A (free / overlapping / sibling leaves / cousins / other trees / superset / same / "
             "disjoint), both with targets and hashes in a drawn parallel order. Checked against the model: AddProof(A,B) returns the union (each target once, hashes "
@@ -351,7 +351,7 @@ NOT_APPLICABLE[:] = [e for e in NOT_APPLICABLE if e["property_id"] not in CHECKS
 CHECKS["C17"] = {
     "test": "TestC17",
     "quick": {"shards": 8, "checks": 4000},
-    "thorough": {"shards": 16, "checks": 5000},
+    "thorough": {"shards": 16, "checks": 20000},
     "rule": "honest block histories (C01 shapes, deletions in drawn - mostly unsorted - request order, generated remember flags) on a Stump, a Pollard, a full and a partial "
             "MapPollard (generated TotalRows; in half of the cases 0, i.e. equal to the rows the forest needs, where a map forest translates and therefore copies nothing). "
             "Per block ONE set of argument slices is built - deleted hashes, proof targets, proof hashes, leaves, added hashes, previous roots, remember indexes, wants, a second "
@@ -377,7 +377,7 @@ CHECKS["C12"] = {
     "test": "TestC12",
     "race": True,
     "quick": {"shards": 8, "checks": 150, "timeout": 1500},
-    "thorough": {"shards": 16, "checks": 1500, "timeout": 7200},
+    "thorough": {"shards": 16, "checks": 6000, "timeout": 7200},
     "rule": "built with -race (GORACE halt_on_error). A rapid-generated writer script (block / undo / Verify(remember) / re-read of its own serialization; for a partial forest also "
             "Prune and Ingest) on a full or partial MapPollard with generated TotalRows, and a query set holding every reader method at least once (GetRoots, GetStump, Prove x2, "
             "Verify(remember=false), GetLeafPosition x2, GetLeafHashPositions, GetHash x2 (1-6 positions), GetMissingPositions, GetNumLeaves, GetTreeRows, Write (parsed), "
